@@ -277,7 +277,7 @@ func RunC16(rep *report.Report, tier string) {
 	depth := 4
 	ck := NewClock(tier, 100*time.Second, 20*time.Minute, 16)
 	if tier == "thorough" {
-		depth = 5
+		depth = 7 // (budget-bounded: the search reports the depth it completed)
 	}
 	letters := Alphabet(c16Letters...)
 	rep.Set("alphabet", Names(letters))
